@@ -228,6 +228,35 @@ class SourceScope(Scope):
             for name in flow._names:
                 yield flow, name
 
+    def imported_modules(self):
+        # type: () -> set[str]
+        """Absolute names of the modules this source may refer to through its imports"""
+        result = set()
+        project = getattr(self, '_project', None)
+        for _flow, name in self.all_names:
+            if isinstance(name, ImportedName):
+                candidates = [name.module]
+                if name.mname:
+                    candidates.append(name.module + name.mname if not name.module.strip('.')
+                                      else name.module + '.' + name.mname)
+                for module in candidates:
+                    if module.startswith('.'):
+                        if not project:
+                            continue
+                        try:
+                            module = project.norm_package(module, self.filename)
+                        except ImportError:
+                            continue
+                    if module:
+                        result.add(module)
+
+        for mname in self._imports:
+            parts = mname.split('.')
+            for i in range(1, len(parts) + 1):
+                result.add('.'.join(parts[:i]))
+
+        return result
+
     def add_unvisited(self, flow, node):
         # type: (Flow, AST) -> None
         self._unvisited.append((flow, node))
@@ -292,6 +321,7 @@ class SourceScope(Scope):
 
     def resolve_star_imports(self, project):
         # type: (Project) -> None
+        self._project = project
         for loc, declared_at, mname, flow in self._star_imports:
             try:
                 module = project.get_nmodule(mname, self.filename)
